@@ -145,6 +145,7 @@ class Sim:
         self.switches = 0
         self.preemptions = 0
         self.stalls = 0
+        self._stall_seen = -1
         self.finished = _real_allocate_lock()
         self.finished.acquire()
         self.over = False
@@ -355,8 +356,11 @@ class Sim:
             if self.heap and self.heap[0][0] <= self.now:
                 self._fire_next_event()
                 continue
-            if (self.p_stall and self.heap and
+            # stall: time passes although threads are runnable.  Decided once per pending
+            # event (when it becomes the earliest one), not once per scheduling point.
+            if (self.p_stall and self.heap and self.heap[0][1] != self._stall_seen and
                     self.heap[0][0] - self.now <= self.stall_window):
+                self._stall_seen = self.heap[0][1]
                 if self.dec.flip(self.p_stall):
                     self.stalls += 1
                     self._fire_next_event()
